@@ -116,4 +116,19 @@ example : Conv.cstr (Conv.itoa (-12345) 7).2 = [45, 49, 50, 51, 52, 53] ∧ (Con
   have := itoa_refines_spec (-12345) 7 (by decide) (by rw [h]; decide)
   rw [h] at this; exact this
 
+/-! ## hex -/
+
+/-- side condition on the regenerated table `ascii2hex` of iwconv.c: it inverts the 16 lower-case
+    hex digit characters that `iwbin2hex` emits -/
+theorem ascii2hex_ok : ∀ h < 16, Conv.tbl (Conv.hexchar h) = h := Conv.tbl_hexchar
+
+/-- `iwhex2bin(iwbin2hex(bs))` = `bs` for every byte string that fits the output buffer. -/
+theorem hex_roundtrip (bs : Bytes) (max : Nat) (hwf : Bytes.wf bs) (hlen : bs.length ≤ max)
+    (_hmax : 0 < max) : Conv.hex2bin (Conv.bin2hex bs) max = bs :=
+  Conv.hex2bin_bin2hex bs max hwf hlen
+
+/-- non-vacuity -/
+example : Conv.hex2bin (Conv.bin2hex [0, 255, 0x1f, 0xa0]) 4 = [0, 255, 0x1f, 0xa0] :=
+  hex_roundtrip _ 4 (by intro b hb; simp at hb; omega) (by decide) (by decide)
+
 end IwModel.C19
